@@ -68,6 +68,9 @@ def gen(rng, tier):
             sh.append({"op": "arch", "clzs": clzs, "identKeys": ident,
                        "mergeHeader": rng.random() < 0.3, "mergePackage": rng.random() < 0.3,
                        "filters": rng.choice([[""], [""], ["com"], ["com.a", "org"], ["zzz"], ["a"]])})
+            if rng.random() < (0.08 if tier == "quick" else 0.01):
+                # through the real `coca arch -d deps.json [-H] [-P] -x filters` in a fresh process (coca_reporter/arch.dot)
+                sh[-1]["cli"] = True
         shards.append(sh)
     return shards
 
@@ -122,7 +125,7 @@ def oracle(case, out, raw):
     # the graph itself (before any layout): with a merge it is the quotient by the package function without self-loops
     exp_rels = sorted(set("%s -> %s" % (a, b) for a, b in edges))
     got_rels = sorted(set(out.get("allRels", [])))
-    if got_rels != exp_rels:
+    if "allRels" in out and got_rels != exp_rels:       # (a case that went through `coca arch` shows the drawn graph only)
         miss = [r for r in exp_rels if r not in got_rels][:4]
         extra = [r for r in got_rels if r not in exp_rels][:4]
         ds.append(("arch-graph-relations", "relations of the %s graph: missing %s, not expected %s" % (
@@ -145,7 +148,10 @@ def oracle(case, out, raw):
 
 def view(o):
     if isinstance(o, dict) and "edges" in o:
-        return {"nodes": o["nodes"], "edges": sorted(set(o["edges"])), "allNodes": o["allNodes"], "allRels": sorted(set(o["allRels"]))}
+        v = {"nodes": o["nodes"], "edges": sorted(set(o["edges"]))}
+        if "allNodes" in o:
+            v.update({"allNodes": o["allNodes"], "allRels": sorted(set(o["allRels"]))})
+        return v
     return o
 
 
